@@ -9,7 +9,8 @@ Require Import LV.Base.QcI LV.Interp.QOrd LV.SelfCal.C18MErrorModel LV.SelfCal.V
 
 Definition nz (n : Z) : Qc := qz n.
 Definition ex_env : menv Qc :=
-  {| en_calf := [nz 10; nz 20; nz 25; nz 30]; en_fvalid := true; en_lo := nz 10; en_hi := nz 30; en_full_s_ok := true |}.
+  {| en_calf := [nz 10; nz 20; nz 25; nz 30]; en_fvalid := true; en_lo := nz 10; en_hi := nz 30; en_full_s_ok := true;
+     en_gaps_ok := q_gaps_ok (qq 1 1000) |}.
 Definition ex_fresh : mvec Qc := repeat (nz 77, nz 88) 4.
 Definition ex_call : margs Qc :=
   {| a_fv := Some [nz 8; nz 20; nz 30; nz 40]; a_n := 4;
@@ -32,3 +33,44 @@ Definition ex_accepted : bool :=
 
 Lemma stored_noise_instance : ex_accepted = true /\ ex_stored_ok = true.
 Proof. vm_compute. split; reflexivity. Qed.
+
+(* ---- stored_noise_at_knot APPLIED to the instance: every hypothesis is discharged ---- *)
+Require Import Lia LV.Interp.SplineModel LV.SelfCal.C18MErrorProofs LV.SelfCal.VMatrixNoiseProofs.
+
+Definition ex_mdx : Qc := qq 1 1000.
+Definition ex_fv : list Qc := [nz 8; nz 20; nz 30; nz 40].
+Definition ex_nf : list Qc := [nz 3; nz 7; nz 2; nz 9].
+Definition ex_tr : list Qc := [nz 1; qq 1 2; nz 4; qq 1 3].
+Definition ex_h : list (mvec Qc * margs Qc) := [(ex_fresh, ex_earlier); (ex_fresh, ex_rejected)].
+
+Lemma ex_mdx_pos : (0 < ex_mdx)%Qc.
+Proof. vm_compute. reflexivity. Qed.
+
+Lemma ex_lower_accepts :
+  q_lower ex_mdx ex_env ex_call =
+  MSet Qc (q_values_at ex_mdx ex_env ex_call ex_nf) (Some (q_values_at ex_mdx ex_env ex_call ex_tr)).
+Proof. vm_compute. reflexivity. Qed.
+
+Lemma ex_gaps : forall i : Z, (0 <= i < Z.of_nat (a_n Qc ex_call) - 1)%Z -> (ex_mdx <= gq ex_fv (i + 1) - gq ex_fv i)%Qc.
+Proof.
+  intros i Hi. cbn in Hi. assert (E : i = 0%Z \/ i = 1%Z \/ i = 2%Z) by lia.
+  destruct E as [-> | [-> | ->]]; vm_compute; discriminate.
+Qed.
+
+Lemma ex_fresh_ok : fresh_ok Qc ex_env ex_h.
+Proof. repeat constructor. Qed.
+Lemma ex_n_ge2 : (2 <= a_n Qc ex_call)%nat. Proof. cbn. lia. Qed.
+Lemma ex_n_le4 : (a_n Qc ex_call <= 4)%nat. Proof. cbn. lia. Qed.
+Lemma ex_tr_len : match a_tr Qc ex_call with Some tr => (a_n Qc ex_call <= length tr)%nat | None => True end.
+Proof. cbn. lia. Qed.
+Lemma ex_j : (1 < length (en_calf Qc ex_env))%nat. Proof. cbn. lia. Qed.
+Lemma ex_k : (0 <= 1 < Z.of_nat (a_n Qc ex_call))%Z. Proof. cbn. lia. Qed.
+
+Theorem stored_noise_at_knot_satisfiable_l :
+  exists v, q_run_args ex_mdx ex_env None (ex_h ++ [(ex_fresh, ex_call)]) = Some v /\
+            fst (nth 1 v (0, 0)%Qc) = gq ex_nf 1 /\ snd (nth 1 v (0, 0)%Qc) = gq ex_tr 1.
+Proof.
+  exact (stored_noise_at_knot_l ex_mdx ex_mdx_pos ex_env ex_h None ex_fresh ex_call ex_fv ex_nf _ _ 1%nat 1%Z
+           I ex_fresh_ok eq_refl ex_lower_accepts eq_refl eq_refl
+           ex_n_ge2 ex_n_le4 ex_n_le4 ex_tr_len ex_gaps ex_j ex_k eq_refl).
+Qed.
